@@ -209,6 +209,25 @@ def h_fresh(p):
     return out
 
 
+def h_raw(p):
+    """raw input texts (given as bytes, decoded like the CLI's text-mode read): does the generator raise?
+    plus the independent reference: stdlib strict JSON and the root clause"""
+    out = []
+    for c in p:
+        text = bytes.fromhex(c['bytes_hex']).decode('utf-8', 'ignore')
+        try:
+            v = json.loads(text)
+            ref = 'doc' if isinstance(v, (dict, list)) else 'scalar'
+        except ValueError:
+            ref = 'syntax'
+        try:
+            gen(text, c.get('fs', False), c.get('ex', False))
+            out.append({'ref': ref, 'gen': 'ok'})
+        except BaseException as e:
+            out.append({'ref': ref, 'gen': short_err(e)})
+    return out
+
+
 def h_oracle(p):
     from dataclass_wizard.wizard_cli.schema import English, is_float, _BOOL_VALUES
     from dataclass_wizard.utils.string_conv import to_snake_case, to_pascal_case
@@ -278,6 +297,8 @@ def handler(p):
         res['cases'] = h_cases(p['cases'])
     if 'regen' in p:
         res['regen'] = h_regen(p['regen'])
+    if 'raw' in p:
+        res['raw'] = h_raw(p['raw'])
     if 'fresh' in p:
         res['fresh'] = h_fresh(p['fresh'])
     if 'interleaved' in p:
